@@ -10,6 +10,9 @@ slice `&s[k..]` is one):
   RFC3339_OFFFMT_CHARS   its char literals as code points (all ASCII, else the section is stale)
   RFC3339_HUNDREDS_LITS  integers + byte literals of `write_hundreds`
   RFC3339_NUMBER_LITS    integers + byte literals of `scan::number`
+  RFC3339_SECFORM_VARIANTS  the variant names of `enum SecondsFormat`, in order (audit2 L2: the sixth, doc-hidden
+                         `__NonExhaustive` is constructible and makes `to_rfc3339_opts` panic; it is outside the
+                         property's "five precision options" and has no constructor in the model)
 
 `Chrono.Proofs.Rfc3339OffsetData` instantiates the model bodies with these lists and proves that the results ARE
 `Scan.timezone_offset`, `Format.OffsetFormat.format`, `Format.write_hundreds`, `Scan.number`.
@@ -82,6 +85,9 @@ def previous():
         prev[m.group(1)] = [int(x) for x in m.group(2).split(",") if x.strip()]
     for m in re.finditer(r"def (RFC3339_\w+) : List \(List Nat\) := \[(.*)\]\n", text):
         prev[m.group(1)] = [[int(x) for x in g.split(",") if x.strip()] for g in re.findall(r"\[([^\]]*)\]", m.group(2))]
+    m = re.search(r"def RFC3339_SECFORM_VARIANTS : List String := \[([^\]]*)\]", text)
+    if m:
+        prev["RFC3339_SECFORM_VARIANTS"] = re.findall(r'"(\w+)"', m.group(1))
     return prev
 
 
@@ -117,7 +123,22 @@ def run(api):
         ("RFC3339_NUMBER_LITS", SCAN,
          lambda: no_chars(lits(fn_body(scan, r"pub\(super\) fn number\(")), "scan::number"), "List Nat"),
     ]
+    def variants():
+        m = re.search(r"pub enum SecondsFormat\s*\{", fmt)
+        if not m:
+            raise LookupError("enum SecondsFormat not found")
+        body = block_after(fmt, m.start())[1:-1]
+        body = re.sub(r"#\[[^\]]*\]", "", body)
+        names = [x.strip() for x in body.split(",") if x.strip()]
+        if not names or any(not re.match(r"^\w+$", n) for n in names):
+            raise LookupError("SecondsFormat variants: " + repr(names))
+        return names
+
     text = api.hdr + "namespace Chrono.Extracted\n\n"
+    val = api.section("RFC3339_SECFORM_VARIANTS", FMT, variants, prev.get("RFC3339_SECFORM_VARIANTS"))
+    if val is not None:
+        api.keep("RFC3339_SECFORM_VARIANTS", val)
+        text += "def RFC3339_SECFORM_VARIANTS : List String := [" + ", ".join('"' + v + '"' for v in val) + "]\n"
     for key, rel, fn, ty in items:
         val = api.section(key, rel, fn, prev.get(key))
         if val is None:
